@@ -183,12 +183,12 @@ def render_with_comments(doc, ch):
     return text, pl.placed
 
 
-def check_comments(src, placed, case, opts=None):
+def check_comments(src, placed, case, opts=None, position=False):
     """placed: None for corpus files (only clauses 1 and 2)."""
     W = env.Workers.get()
     opts = opts or {}
     try:
-        d = W.loads(src, comments=True)
+        d = W.loads(src, comments=True, position=position)   # (comments are kept whether or not positions are recorded too)
     except Exception as e:
         return [Discrepancy(f"load_comments:{type(e).__name__}", f"loads(include_comments=True) raised {type(e).__name__}: {e!s:.100}", case)]
     try:
@@ -302,7 +302,8 @@ def corpus_part(acc: Acc, tier, shard, nshards):
         acc.case(case, len(mine) >= 3, sample={"file": corpus.rel(p), "comments": len(mine)})
         acc.cls("corpus_comments", len(mine))
         acc.cls("corpus_files")
-        for dd in check_comments(text, None, case):
+        case["position"] = (len(text) % 2 == 1)
+        for dd in check_comments(text, None, case, position=case["position"]):
             if not any(v["bucket"] == dd.bucket for v in acc.violations):
                 acc.violations.append({**dd.as_dict(), "search": "corpus", "shard": shard, "round": 0, "seed": env.verif_seed(), "tier": tier})
 
@@ -326,12 +327,24 @@ def search(acc: Acc, tier, shard, nshards):
         acc.case(src, nt, sample={"text": src[:900]} if nt and len(src) < 900 else None)
         for (k, c), v in kinds.items():
             acc.cls(f"placement:{k}:{'claimed' if c else 'unclaimed'}", v)
-        return check_comments(src, placed, {"text": src, "placed": placed})
+        opts = None
+        if ch.chance(1, 2):
+            # any layout options with a newlinechar that contains a line break (end_comment adds comments of its own
+            # and stays off: the verbatim clause speaks of the comments dumps writes for the source's comments)
+            from .. import options
+
+            opts = options.draw(ch, quotes=['"'], linebreak_only=True, has_comments=True)
+            opts["end_comment"] = False
+            acc.cls("with_layout_options")
+        position = ch.chance(1, 3)
+        if position:
+            acc.cls("with_include_position")
+        return check_comments(src, placed, {"text": src, "placed": placed, "opts": opts, "position": position}, opts=opts, position=position)
 
     hyp_search(acc, ID, "documents", shard, n, body, tier)
 
 
 def replay(case):
     if "file" in case:
-        return check_comments(corpus.read(os.path.join(env.REPO, case["file"])), None, case)
-    return check_comments(case["text"], case.get("placed"), case)
+        return check_comments(corpus.read(os.path.join(env.REPO, case["file"])), None, case, position=case.get("position", False))
+    return check_comments(case["text"], case.get("placed"), case, opts=case.get("opts"), position=case.get("position", False))
